@@ -29,9 +29,11 @@ import (
 
 	"verifh/bridge"
 	"verifh/codec"
+	"verifh/codec1"
 	"verifh/corpus"
 	"verifh/ev"
 	"verifh/gen/all"
+	"verifh/genr/allr"
 	"verifh/model"
 	"verifh/props/c04/gen1"
 	"verifh/props/c04/gen2"
@@ -67,6 +69,7 @@ type typedT struct {
 	set    *bridge.Set
 	full   string
 	format codec.Format
+	root   bool // decode with the root-module bindings of the same schema set (codec1 / allr)
 }
 
 type anyCase struct {
@@ -148,12 +151,23 @@ func process(run *ev.Run, w *worker, it item) {
 		report(f.Generation, f.Format, f.Program, f.Input, f.Panic, f.Frame, f.Stack)
 	}
 	for _, t := range it.typed {
-		w.typed.Store("v2|" + t.format.Name + "|" + t.full + "|" + it.text)
+		gen := "v2"
+		if t.root {
+			gen = "root"
+		}
+		w.typed.Store(gen + "|" + t.format.Name + "|" + t.full + "|" + it.text)
 		atomic.AddInt64(&w.steps, 1)
-		_, err := codec.Decode(t.format, t.set, t.full, it.text)
+		var err error
+		if t.root {
+			_, err = codec1.Decode(codec1.FormatByName(t.format.Name), t.set, t.full, it.text)
+		} else {
+			_, err = codec.Decode(t.format, t.set, t.full, it.text)
+		}
 		run.Eval(1)
 		if pe, ok := err.(*codec.PanicError); ok {
-			report("v2", t.format.Name, "generated:"+t.full, it.text, pe.Value, pe.Frame, pe.Stack)
+			report(gen, t.format.Name, "generated:"+t.full, it.text, pe.Value, pe.Frame, pe.Stack)
+		} else if pe, ok := err.(*codec1.PanicError); ok {
+			report(gen, t.format.Name, "generated:"+t.full, it.text, pe.Value, pe.Frame, pe.Stack)
 		} else if err == nil {
 			run.Count("typed.accepted", 1)
 		} else {
@@ -265,7 +279,7 @@ func main() {
 	run.Rule("codec level: case = (generation, reader constructor, decode program or generated type, input); inputs = every string of up to N tokens over the ROR2, JSON and query-string delimiter alphabets, every truncation and sampled single edits of valid encodings of generated values in all five wire formats, 50 hostile untyped Go values; " +
 		"HTTP level: case = (mounting, generated method, mutated request or mutated response), see the http.* counters. A panic recovered from library code, a 5xx / stack trace / dropped connection for any request against resources that always succeed, an invocation for a request whose body or key does not parse, or a panic in the caller's goroutine is a violation; a stalled worker is re-run alone before it counts. " +
 		"distinct = distinct (format, program or type, outcome class) for the codec level + (method kind, mutation class, status class) for HTTP")
-	run.Assume("readers whose inner reader is not consumed by the callback are documented as undefined and are not exercised", "cyclic Go values are not fed to the interface reader", "typed (generated) decoders: v2 only; Reader-interface programs: both generations")
+	run.Assume("readers whose inner reader is not consumed by the callback are documented as undefined and are not exercised", "cyclic Go values are not fed to the interface reader", "generated decoders: both generations for decoding (root through types-only bindings); HTTP level: v2; Reader-interface programs: both generations")
 	rng := rand.New(rand.NewSource(run.Seed))
 	if len(all.Sets) == 0 {
 		run.Inconclusive("no generated schema sets")
@@ -280,6 +294,17 @@ func main() {
 	if ks == nil {
 		run.Inconclusive("kitchen sink missing")
 		run.Finish()
+	}
+	var ksRoot *bridge.Set
+	rootSets := map[string]*bridge.Set{}
+	for _, s := range allr.Sets {
+		rootSets[s.Name] = s
+		if s.Name == "ks" {
+			ksRoot = s
+		}
+	}
+	if ksRoot == nil {
+		run.Inconclusive("root-module kitchen sink bindings missing")
 	}
 	items := make(chan item, 1024)
 	workers := make([]*worker, 14)
@@ -343,7 +368,12 @@ func main() {
 				continue
 			}
 			for _, fn := range formats {
-				out = append(out, typedT{ks, tn, codec.FormatByName(fn)})
+				out = append(out, typedT{ks, tn, codec.FormatByName(fn), false})
+				if ksRoot != nil {
+					if _, ok := ksRoot.Types[tn]; ok {
+						out = append(out, typedT{ksRoot, tn, codec.FormatByName(fn), true})
+					}
+				}
 			}
 		}
 		return out
@@ -417,7 +447,12 @@ func main() {
 						only = "query-value"
 					}
 					other := names[rng.Intn(len(names))]
-					typed := []typedT{{set, tn, f}, {set, other, f}}
+					typed := []typedT{{set, tn, f, false}, {set, other, f, false}}
+					if rs := rootSets[set.Name]; rs != nil {
+						if _, ok := rs.Types[tn]; ok {
+							typed = append(typed, typedT{rs, tn, f, true})
+						}
+					}
 					run.Count("valid_documents", 1)
 					for _, m := range mutants(rng, doc, delims, budget) {
 						items <- item{text: m, only: only, typed: typed, class: "mutated-" + f.Name}
@@ -488,7 +523,7 @@ func oneChild(file string) {
 				}
 			}
 		case strings.HasPrefix(parts[2], "ks.") || strings.Contains(parts[2], "."):
-			for _, set := range all.Sets {
+			for _, set := range append(append([]*bridge.Set{}, all.Sets...), allr.Sets...) {
 				if _, ok := set.Types[parts[2]]; ok {
 					_, _ = codec.Decode(codec.FormatByName(parts[1]), set, parts[2], parts[3])
 				}
